@@ -366,7 +366,10 @@ impl<'a> GeneratorState<'a> {
                         }
                         match op {
                             Operation::Brs(_) => return Ok(ExprType::Immediate(l >> r)),
-                            Operation::Bls(_) => return Ok(ExprType::Immediate(l << r)),
+                            Operation::Bls(_) => return match i32::try_from((*l as i64) << r) {
+                                Ok(v) => Ok(ExprType::Immediate(v)),
+                                Err(_) => Err(self.compiler_state.syntax_error("Constant expression overflow or division by zero", pos)),
+                            },
                             _ => unreachable!(),
                         } 
                     },
